@@ -7,6 +7,9 @@
 //! defect `mass`  : with probability 2e-2 a draw at or below the reference median is redrawn until it lies
 //!                  above the median (moves ~1 % of the mass across the median; leaves both halves' shapes)
 //! defect `scale` : continuous laws only: x -> med + 1.03 (x - med)
+//! defect `atom`  : continuous laws only: with probability 2e-5 the reference median is returned (a rare constant
+//!                  fallback; invisible to T1-T3, must be caught by the atom test T5; informational for f32
+//!                  cells, where the output grid itself carries atoms of ~1e-7 and ~19 copies are needed)
 //! defect `off1`  : discrete laws only: x -> x + 1 (informational: an off-by-one is statistically invisible
 //!                  when every pmf value is below the resolution, i.e. for sd >~ 100 at the quick sizes;
 //!                  such errors at the *ends* of the support are C03's business)
@@ -31,6 +34,8 @@ struct Row {
     scale_detected: u64,
     off1_run: u64,
     off1_detected: u64,
+    atom_run: u64,
+    atom_detected: u64,
     missed: Vec<String>,
 }
 
@@ -62,9 +67,15 @@ fn perturbed(cell: &Cell, kind: u8, med: f64) -> impl Fn(&mut BaseRng, &mut [f64
             for o in out.iter_mut() {
                 *o = med + (*o - med) * 1.03;
             }
-        } else {
+        } else if kind == 2 {
             for o in out.iter_mut() {
                 *o += 1.0;
+            }
+        } else {
+            for o in out.iter_mut() {
+                if (rng.random::<u64>() >> 11) as f64 * 2f64.powi(-53) < 2e-5 {
+                    *o = med;
+                }
             }
         }
     }
@@ -98,26 +109,26 @@ pub fn run(prop: &str, tier: &str, seed: u64, max_per_family: usize) -> (Value, 
             }
         }
     }
-    let res: Vec<(String, String, bool, Option<bool>, Option<bool>, Option<bool>)> = jobs
+    let res: Vec<(String, String, bool, Option<bool>, Option<bool>, Option<bool>, Option<bool>)> = jobs
         .par_iter()
         .map(|(k, plan)| {
             let cell = &plan.cell;
             let law = match reflaw(cell) {
                 Some(l) => l,
-                None => return (k.clone(), cell.key(), false, None, None, None),
+                None => return (k.clone(), cell.key(), false, None, None, None, None),
             };
             if build(cell).is_err() {
-                return (k.clone(), cell.key(), false, None, None, None);
+                return (k.clone(), cell.key(), false, None, None, None, None);
             }
             // is the unperturbed cell non-trivial under the check's own rule?
             let s = build(cell).unwrap();
             let base = check_law(&LawJob { cell, sampler: Src::Dyn(s.as_ref()), law: &law, n: plan.n, seed: hseed(&[seed, cell.hash64(), 0x1A3]), min_n: 0 });
             if !base.nontrivial {
-                return (k.clone(), cell.key(), false, None, None, None);
+                return (k.clone(), cell.key(), false, None, None, None, None);
             }
             let med = match quantile(&law, 0.5) {
                 Some(m) if m.is_finite() => m,
-                _ => return (k.clone(), cell.key(), true, None, None, None),
+                _ => return (k.clone(), cell.key(), true, None, None, None, None),
             };
             // the mass defect needs P(X > med) not tiny, or the redraw never succeeds
             let upper = (law.sf)(med);
@@ -142,11 +153,18 @@ pub fn run(prop: &str, tier: &str, seed: u64, max_per_family: usize) -> (Value, 
             } else {
                 None
             };
-            (k.clone(), cell.key(), true, mass, scale, off1)
+            let atom = if !law.discrete && law.lo != law.hi {
+                let f = perturbed(cell, 3, med);
+                let o = check_law(&LawJob { cell, sampler: Src::Fn(&f), law: &law, n: plan.n, seed: hseed(&[seed, cell.hash64(), 0xD3]), min_n: 0 });
+                Some(o.confirmed.iter().any(|r| r.kind.starts_with("T5")))
+            } else {
+                None
+            };
+            (k.clone(), cell.key(), true, mass, scale, off1, atom)
         })
         .collect();
     let mut rows: BTreeMap<String, Row> = BTreeMap::new();
-    for (k, key, nt, mass, scale, off1) in res {
+    for (k, key, nt, mass, scale, off1, atom) in res {
         let r = rows.entry(k).or_default();
         r.planned += 1;
         if nt {
@@ -158,6 +176,12 @@ pub fn run(prop: &str, tier: &str, seed: u64, max_per_family: usize) -> (Value, 
                 r.mass_detected += 1;
             } else if r.missed.len() < 12 {
                 r.missed.push(format!("mass:{key}"));
+            }
+        }
+        if let Some(d) = atom {
+            r.atom_run += 1;
+            if d {
+                r.atom_detected += 1;
             }
         }
         if let Some(d) = off1 {
@@ -187,7 +211,8 @@ pub fn run(prop: &str, tier: &str, seed: u64, max_per_family: usize) -> (Value, 
             k.clone(),
             json!({"cells": r.planned, "nontrivial": r.nontrivial, "mass_defect_run": r.mass_run, "mass_defect_detected": r.mass_detected,
                    "scale_defect_run": r.scale_run, "scale_defect_detected": r.scale_detected,
-                   "off_by_one_run": r.off1_run, "off_by_one_detected": r.off1_detected, "missed_examples": r.missed}),
+                   "off_by_one_run": r.off1_run, "off_by_one_detected": r.off1_detected,
+                   "atom_defect_run": r.atom_run, "atom_defect_detected": r.atom_detected, "missed_examples": r.missed}),
         );
     }
     (json!({"property": prop, "tier": tier, "seed": seed, "max_cells_per_family_float": max_per_family, "rows": table, "rows_below_90_percent": weak}), weak)
